@@ -127,8 +127,34 @@ def queue_rules(R, P):
     xs = {f.show(w.node["a"][0]): f.show(_assignment_of(f, w)["a"][1]) for w in slotw if _assignment_of(f, w)}
     tmpv = [v for v in xs.values() if not v.startswith("*")]
     R.check(len(xs) == 2 and any(v.startswith("*") and v[1:] in slots and v[1:] != k for k, v in xs.items()) and len(tmpv) == 1, "LOCKSTEP", "swap:slots-really-exchanged", "s_swap()", "slot contents exchanged through a temporary (%s)" % xs)
-    g = [RU.cmp_norm(f, c, p) for e in stores for c, p, b in RU.guards(f, e, dom)]
+    # each index store depends only on `handle array present` and on its own slot holding a handle
+    for s in stores:
+        base = RU.uncast(f, s.node["a"][0])
+        own = f.show(base["a"][0]) if base is not None and base["k"] == "un" and base["op"] == "deref" else None
+        foreign = [f.show(f.d(c_)) for c_, p_, b_ in RU.guards(f, s, dom) if any(o != own and ("*" + o) in f.show(f.d(c_)) for o in slots)]
+        R.check(own in slots and not foreign, "LOCKSTEP", "swap:reindex-%s-unconditional" % own, where(f, s), "the index of the handle in slot %s is rewritten whenever that slot holds a handle" % slots.get(own),
+                "the index store for slot %s is skipped depending on the other slot (%s): when both elements carry handles one of them keeps its old index" % (slots.get(own), foreign))
     R.check(len(sw) == 1 and all(ev_dominates(f, sw[0], s, dom) for s in stores), "LOCKSTEP", "swap:elements-and-handles-together", "s_swap()", "element exchange and handle exchange happen in the same call")
+
+    # ---------------------------------------------------------------- the three maintenance sites agree on `handle array present`
+    def presence(fname, evs):
+        g_ = fns[fname]
+        d_ = dominators(g_)
+        out = set()
+        for e in evs:
+            gs = [(g_.show(g_.d(c_)).replace(" ", ""), bool(p_)) for c_, p_, b_ in RU.guards(g_, e, d_) if "backpointers" in g_.show(g_.d(c_))]
+            out.add(tuple(gs[-1:]) if gs else ())
+        return out
+    fs, fp, fr = fns["s_swap"], fns["aws_priority_queue_push_ref"], fns["s_remove_node"]
+    sites = {
+        "s_swap:slot-exchange": presence("s_swap", slotw),
+        "push_ref:set_at": presence("aws_priority_queue_push_ref", [e for e in fp.calls("aws_array_list_set_at") if argstr(fp, e.node, 0) == "queue->backpointers"]),
+        "remove:pop_back": presence("s_remove_node", [e for e in fr.calls("aws_array_list_pop_back") if argstr(fr, e.node, 0) == "queue->backpointers"]),
+    }
+    ref = sites["s_swap:slot-exchange"]
+    R.check(len(ref) == 1 and all(v == ref for v in sites.values()) and () not in ref, "LOCKSTEP", "handle-array-present:sites-agree", "s_swap() / aws_priority_queue_push_ref() / s_remove_node()",
+            "slot exchange, slot registration on push and slot removal are all controlled by the same `handle array present` test (%s): the handle array keeps the container's length" % sorted(ref),
+            "the sites that maintain the handle array do not use the same `present` test (%s): the handle array's length can fall behind the container's, and a later registration exposes stale slots" % {k: sorted(v) for k, v in sites.items()})
 
     # ---------------------------------------------------------------- push_ref
     f = fns["aws_priority_queue_push_ref"]
@@ -297,6 +323,8 @@ def queue_rules(R, P):
 
 
 MUTANTS = [
+    {"name": "swap-second-reindex-else-if", "file": PQ, "expect": "LOCKSTEP", "old": "            (*bp_a)->current_index = a;\n        }\n\n        if (*bp_b) {", "new": "            (*bp_a)->current_index = a;\n        } else if (*bp_b) {"},
+    {"name": "push-registers-only-while-in-use", "file": PQ, "expect": "LOCKSTEP", "old": "    if (!AWS_IS_ZEROED(queue->backpointers)) {\n        if (aws_array_list_set_at(", "new": "    if (backpointer || aws_array_list_length(&queue->backpointers) > 0) {\n        if (aws_array_list_set_at("},
     {"name": "mem-swap-skips-last-slice", "file": "source/array_list.c", "expect": "COVER",
      "old": "    for (size_t i = 0; i < slice_count; i++) {", "new": "    for (size_t i = 0; i + 1 < slice_count; i++) {"},
     {"name": "swap-writes-old-slot", "file": PQ, "expect": "LOCKSTEP", "old": "            (*bp_a)->current_index = a;", "new": "            (*bp_a)->current_index = b;"},
